@@ -116,7 +116,8 @@ def ret_leaves(body, max_depth=6):
                 rv = st["rv"]
                 if rv["k"] == "use" and rv["op"].get("k") in ("move", "copy") and not rv["op"]["pl"]["p"] and depth < max_depth:
                     l2 = rv["op"]["pl"]["l"]
-                    if l2 not in body.local_name and not (1 <= l2 <= body.arg_count) and body.defs.get(l2):
+                    # a local that merely carries the value, named (`let ttl = ..; drop(entry); ttl`) or not
+                    if not (1 <= l2 <= body.arg_count) and body.defs.get(l2) and not body.partial_defs.get(l2):
                         walk(l2, depth + 1)
                         continue
                 # the payload of an enum local that every definition builds as that variant around a plain local:
